@@ -372,6 +372,11 @@ class CSSStyleDeclaration(CSS2Properties, cssutils.util.Base2):
         for item in newseq:
             item.value._parent = self
 
+        # the replaced properties are not part of this declaration anymore
+        for item in self.seq:
+            if isinstance(item.value, Property):
+                item.value._parent = None
+
         # do not check wellformed as invalid things are removed anyway
         self._setSeq(newseq)
 
@@ -597,6 +602,9 @@ class CSSStyleDeclaration(CSS2Properties, cssutils.util.Base2):
             for item in self.seq:
                 if not (isinstance(item.value, Property) and item.value.name == nname):
                     newseq.appendItem(item)
+                else:
+                    # not part of this declaration anymore
+                    item.value._parent = None
         else:
             # remove all properties with literalname == name
             for item in self.seq:
@@ -604,6 +612,9 @@ class CSSStyleDeclaration(CSS2Properties, cssutils.util.Base2):
                     isinstance(item.value, Property) and item.value.literalname == name
                 ):
                     newseq.appendItem(item)
+                else:
+                    # not part of this declaration anymore
+                    item.value._parent = None
         self._setSeq(newseq)
         return r
 
